@@ -69,6 +69,10 @@ def canon (v, depth=0):
     items = []
     if hasattr(v, "tlv_type"): items.append(("tlv_type", v.tlv_type))
     if name == "NDOptionGeneric": items.append(("TYPE", v.TYPE))
+    if hasattr(type(v), "CODE"):
+      # DHCP options: the option code is a class attribute that parsing also stores on the instance; compare its
+      # effective value, not where it is stored
+      items.append(("CODE", getattr(v, "CODE", None))); d.pop("CODE", None)
     for k in sorted(d):
       if k in SKIP_ATTRS or k == "tlv_type": continue
       if k == "raw" and name != "NDOptionGeneric": continue
